@@ -1,13 +1,28 @@
 /-
-  Certificate obligations, part 1 of 8 of the `patched` client system (kernel evaluation; one module per
-  part so that lake checks them in parallel). Assembled in `Lemmas/CliCert.lean`.
+  Certificate obligations, parts 8..15 of 64 of the `patched` client system (kernel evaluation; 8 modules
+  so that lake checks them in parallel; small parts keep the kernel's memory small).
+  Assembled in `Lemmas/CliCert.lean`.
 -/
 import KmipModel.Model.CliConn
 import KmipModel.Gen.CertCliConn
 namespace Kmip.CliCert
 open Kmip.CliLts Kmip.CliConn Kmip.Gen.CertCliConn
 
-theorem paClosed1 : partClosed (sys patched) codec certPatched paP1 = true := by decide +kernel
-theorem paSafe1 : partSafe codec (badFull patched) paP1 = true := by decide +kernel
+theorem paClosed8 : partClosed (sys patched) codec certPatched paP8 = true := by decide +kernel
+theorem paSafe8 : partSafe codec (badFull patched) paP8 = true := by decide +kernel
+theorem paClosed9 : partClosed (sys patched) codec certPatched paP9 = true := by decide +kernel
+theorem paSafe9 : partSafe codec (badFull patched) paP9 = true := by decide +kernel
+theorem paClosed10 : partClosed (sys patched) codec certPatched paP10 = true := by decide +kernel
+theorem paSafe10 : partSafe codec (badFull patched) paP10 = true := by decide +kernel
+theorem paClosed11 : partClosed (sys patched) codec certPatched paP11 = true := by decide +kernel
+theorem paSafe11 : partSafe codec (badFull patched) paP11 = true := by decide +kernel
+theorem paClosed12 : partClosed (sys patched) codec certPatched paP12 = true := by decide +kernel
+theorem paSafe12 : partSafe codec (badFull patched) paP12 = true := by decide +kernel
+theorem paClosed13 : partClosed (sys patched) codec certPatched paP13 = true := by decide +kernel
+theorem paSafe13 : partSafe codec (badFull patched) paP13 = true := by decide +kernel
+theorem paClosed14 : partClosed (sys patched) codec certPatched paP14 = true := by decide +kernel
+theorem paSafe14 : partSafe codec (badFull patched) paP14 = true := by decide +kernel
+theorem paClosed15 : partClosed (sys patched) codec certPatched paP15 = true := by decide +kernel
+theorem paSafe15 : partSafe codec (badFull patched) paP15 = true := by decide +kernel
 
 end Kmip.CliCert
